@@ -77,8 +77,8 @@ CLAIMED = {
              'and its HitEnum is nM (default parameters satisfy the side conditions for every n >= 2); bin centre within half a resolution. Seeding, in exact arithmetic (model/Correlate.v: exact integer cross-correlation of the blurred bit vectors, normalising factor as a rational): for a planted copy on the resolution grid the true lag is a global maximum of the correlation and the normalised correlation there is exactly 1 (C06_true_lag_is_global_max, C06_true_lag_window_normalised); off the grid only a bound holds and the full claim is refuted by a counterexample (C06_true_lag_any_offset_partial, C06_off_lattice_not_max). NOT provable in this family: FFT rounding and scipy.find_peaks plateau/edge handling, i.e. that a seed within delta of the '
              'true diagonal is actually selected and that this candidate wins — that hypothesis is MEASURED by the end-to-end oracle on planted queries in all four modes (exact pairs, strand, nM, |queryShift| <= 200 from the captured winning candidate). '
              'With the executable seeding model (FindPeaks.v/Seeding.v): C06_true_lag_yields_seed/_at_lag/_primary_peak — for a grid-aligned planted copy find_peaks returns a peak of height exactly 1 on (or within the peak distance of) the plateau of the true lag with a reference window identical to the query vector, and no peak is higher; the remaining gap (identical windows elsewhere, ranking across correlations, refine, floats) is stated in C06.v. '
-             'The seeding-chain correspondence stream of C16 is part of this check too.',
-        note=NOTE + 'FFT rounding is outside the model; multi-peak winning candidates are measured only.', design='6 (C06), 10.4', technique='Coq proof of the conditional core + measured seeding hypothesis (end-to-end planted queries) + pipeline correspondence'),
+             'The seeding-chain correspondence stream of C16 is part of this check too. The full statement is REFUTED for the code as it is on references with diverged duplicates of the planted window (C06_top_seeds_refuted, C06_best_candidate_refuted on the whole-run model; open known findings F13: true locus outside the top-3 seeds, F15: perfect true candidate loses on confidence): stream planted_decoys (k = 0..5 duplicates, both strands) routes exactly those two signatures (independent recomputation of the primary stage + captured seeds and candidates) to KNOWN-FINDING; any failure with k <= 2 duplicates lost seeds, k = 0, or not matching a signature is a violation.',
+        note=NOTE + 'FFT rounding is outside the model; open findings F13/F15 are listed in known_findings.json with witnesses and matched by specific signatures.', design='6 (C06), 10.4', technique='Coq proof of the conditional core + measured seeding hypothesis (end-to-end planted queries) + pipeline correspondence'),
     'C04': dict(
         text='Theorems in coq/props/C04.v for ALL parameter values, maps, seed-peak lists, both strands: pair score = SP - DPU*|offset|, unpaired = SU; every segment reported by the model of Aligner.align has score = sum of its positions and its '
              'positions are configured-score images of the engine output of ITS OWN peak (nothing re-scored through factory, chain, slice, __sub__, resolver); confidence = recomputed double sum (also from raw label positions; also for joined rows); '
